@@ -499,6 +499,17 @@ fn run(ctx: &mut Ctx) {
             });
             let sub = format!("pairs/p{}", pi);
             ctx.run_prop(&sub, per_pair * qs.len() as u32, strat, |(qi, v)| check_case(pi, *qi, v));
+            // atoms at the buffer-size thresholds (256 B .. 8 KiB): long strings, names and byte vectors
+            {
+                let q0 = qs[0];
+                ctx.run_prop(&format!("big-atoms/p{}", pi), tier.pick(6, 30), g_big_atom(8192), |v| {
+                    if in_domain(&p, &q0, v) {
+                        check_case(pi, q0.index(), v)
+                    } else {
+                        Ok(Eval::new(false, 0).class("big-atom:outside-the-pair's-domain"))
+                    }
+                });
+            }
             if pi % 97 == 0 {
                 let v = &bat[pi % bat.len()];
                 if in_domain(&p, &qs[0], v) {
@@ -525,6 +536,7 @@ fn run(ctx: &mut Ctx) {
     };
     let (pei, qei) = (pe.index(), qe.index());
     ctx.run_prop("elisp-pair", tier.pick(4000, 200_000), g_value(cfg), move |v| check_case(pei, qei, v));
+    ctx.run_prop("elisp-pair-big-atoms", tier.pick(100, 1000), g_big_atom(tier.pick(65536, 131072)), move |v| check_case(pei, qei, v));
     for v in ctx.sample_values("elisp-pair", &g_value(cfg), 4) {
         let t = lexpr::to_string_custom(&v.to_value(), pe.to_lexpr()).unwrap_or_default();
         ctx.add_sample("elisp-pair", json!({"text": clip(&t, 160)}));
